@@ -43,6 +43,10 @@ pub struct DriveOpts {
     pub marathon: u64,
     /// number of name-flood sessions (pairs: flood -> victims / victims -> flood -> victims)
     pub flood: u64,
+    /// number of ordinary sessions that are run a second time under the clock seam
+    pub warp: u64,
+    /// the LD_PRELOAD library of the clock seam
+    pub warp_lib: Option<PathBuf>,
     /// the sweep sessions and the first N ordinary sessions also write (request, output) pairs
     /// to <out>/dump/<idx>.jsonl for the rustc-parser engine
     pub dump_sessions: u64,
@@ -116,6 +120,14 @@ pub struct DriveSummary {
     pub samples: Vec<serde_json::Value>,
     pub wall_s: f64,
     pub session_wall_s_total: f64,
+    /// sessions run under the clock seam, and the clock readings the seam counted in them
+    #[serde(default)]
+    pub warp_sessions: u64,
+    #[serde(default)]
+    pub warp_clock_readings: u64,
+    /// ... of which while a thread was inside an expansion
+    #[serde(default)]
+    pub warp_clock_readings_in_expansion: u64,
     pub harness_errors: Vec<String>,
     pub plan_digests: Vec<String>,
     pub step_log_digest: String,
@@ -167,6 +179,18 @@ fn spawn_session(exe: &Path, o: &DriveOpts, idx: u64) -> std::io::Result<Child> 
         .stdin(Stdio::null())
         .stdout(Stdio::null())
         .stderr(Stdio::inherit());
+    if idx >= crate::session::WARP_BASE && idx < crate::session::FLOOD_BASE {
+        if let Some(lib) = &o.warp_lib {
+            // skew: up to ten years; jump: one hour per reading. The per-step watchdog is made
+            // ineffective (it reads the warped clock); a hang is caught by the driver's own limit.
+            let w = crate::session::clock_of(idx);
+            c.env("LD_PRELOAD", lib)
+                .env("DEXSIM_CLOCK_BASE_NS", w.base_ns.to_string())
+                .env("DEXSIM_CLOCK_STEP_NS", w.step_ns.to_string())
+                .env("DEXSIM_CLOCK_REPORT", o.out.join("sessions").join(format!("{idx}.clock.json")));
+            c.arg("--timeout").arg("315360000");
+        }
+    }
     c.spawn()
 }
 
@@ -216,6 +240,7 @@ pub fn drive(o: &DriveOpts) -> Result<DriveSummary, String> {
         .map(|k| crate::session::MARATHON_BASE + k)
         .chain((0..o.sweep).map(|k| crate::session::SWEEP_BASE + k))
         .chain((0..o.flood).map(|k| crate::session::FLOOD_BASE + k))
+        .chain((0..if o.warp_lib.is_some() { o.warp } else { 0 }).map(|k| crate::session::WARP_BASE + o.first_session + k))
         .chain(o.first_session..o.first_session + o.sessions)
         .collect();
     let mut next = 0usize;
@@ -308,6 +333,15 @@ pub fn drive(o: &DriveOpts) -> Result<DriveSummary, String> {
             }
         };
         sum.sessions_completed += 1;
+        if idx >= crate::session::WARP_BASE && idx < crate::session::FLOOD_BASE {
+            sum.warp_sessions += 1;
+            if let Ok(t) = std::fs::read_to_string(o.out.join("sessions").join(format!("{idx}.clock.json"))) {
+                if let Ok(v) = serde_json::from_str::<serde_json::Value>(&t) {
+                    sum.warp_clock_readings += v["clock_readings"].as_u64().unwrap_or(0);
+                    sum.warp_clock_readings_in_expansion += v["clock_readings_in_expansion"].as_u64().unwrap_or(0);
+                }
+            }
+        }
         sum.requests += res.log.steps_run as u64;
         sum.hash_containers += res.log.hash_containers;
         sum.hash_hashes += res.log.hash_hashes;
@@ -680,6 +714,7 @@ fn minimise_and_write(
     let mut prefix = Plan {
         reqs: plan.reqs.clone(),
         steps: plan.steps[..=v.step.min(plan.steps.len() - 1)].to_vec(),
+        clock: plan.clock.clone(),
     };
     prefix.compact();
     let mut rf = ReplayFile {
@@ -708,6 +743,7 @@ fn minimise_and_write(
             let mut b = Plan {
                 reqs: p1.reqs.clone(),
                 steps: p1.steps[..=step1.min(p1.steps.len() - 1)].to_vec(),
+                clock: p1.clock.clone(),
             };
             b.compact();
             rf.plan_b = Some(b);
